@@ -10,7 +10,7 @@
 //	rotation     spec-search: rename / remove+create / truncate while a writer keeps appending    (scan.go)
 //	race17       deterministic parked schedule: final persist vs the last setOffset (F17)         (scan.go)
 //	recycle29    deterministic: the record slice of an unconfirmed event after cancel (F29)       (scan.go)
-//	stale41      deterministic parked schedule: sync compares the live offset with a stale size (F41) (stale.go)
+//	stale41      deterministic parked schedule: sync compares the live offset with a stale size (F17b) (stale.go)
 package main
 
 import (
